@@ -133,6 +133,17 @@ func TestOperatorTable(t *testing.T) {
 						judge(t, "table", c, key+"/compound", "delivery/compound")
 					}
 					n++
+					// compound assignment whose target exists only as a key of the point
+					if sgen.IsScalar(l) && !((op == "/" || op == "%") && zeroLit(r)) {
+						c := sem.NewCase(gen.FixAll([]*gen.Node{
+							gen.NAssign(op+"=", []*gen.Node{id("p1")}, []*gen.Node{sgen.Lit(r)}),
+							gen.NCall("probe", gen.NStr("r"), id("p1")),
+							gen.NCall("add_key", id("r"), id("p1")),
+						}))
+						c.Fields = map[string]any{"p1": l}
+						judge(t, "table", c, key+"/compound-point-key", "delivery/compound-on-point-key")
+						n++
+					}
 					// element compound: l[0] op= r
 					c := sem.NewCase(gen.FixAll([]*gen.Node{
 						gen.NSet("l", gen.NList(sgen.Lit(l))), gen.NSet("y", sgen.Lit(r)),
